@@ -6,12 +6,12 @@ set -u
 src=$(cd "$1" && pwd); shift
 wt=$(mktemp -d /tmp/seedchk.XXXXXX); rmdir "$wt"
 git -C /repo worktree add --detach "$wt" HEAD -q || exit 2
-trap 'git -C /repo worktree remove --force "$wt" >/dev/null 2>&1' EXIT
+trap 'git -C /repo worktree remove --force "$wt" >/dev/null 2>&1; rm -f "$wt.out"' EXIT
 cd "$wt"
-echo "== demo without the change:"; PYTHONPATH="$wt" /venv/bin/python "$src/demo.py" >/tmp/seedchk.out 2>&1; echo "exit=$? $(tail -1 /tmp/seedchk.out | cut -c1-150)"
+echo "== demo without the change:"; PYTHONPATH="$wt" /venv/bin/python "$src/demo.py" >"$wt.out" 2>&1; echo "exit=$? $(tail -1 "$wt.out" | cut -c1-150)"
 git apply "$src/patch.diff" || { echo "PATCH DOES NOT APPLY"; exit 3; }
 echo "== repository tests with the change:"; PYTHONPATH="$wt" /venv/bin/python -m pytest -q -p no:cacheprovider 2>&1 | grep -E "[0-9]+ (passed|failed|error)" | tail -1
-echo "== demo with the change:"; PYTHONPATH="$wt" /venv/bin/python "$src/demo.py" >/tmp/seedchk.out 2>&1; echo "exit=$? $(tail -1 /tmp/seedchk.out | cut -c1-150)"
+echo "== demo with the change:"; PYTHONPATH="$wt" /venv/bin/python "$src/demo.py" >"$wt.out" 2>&1; echo "exit=$? $(tail -1 "$wt.out" | cut -c1-150)"
 checks="$*"; [ -z "$checks" ] && checks="C01 C02 C03 C04 C05 C06 C07 C08 C09 C10 C11 C12 C13 C14 C15 C16 C17 C18 C19 C20"
 for c in $checks; do
   out=$(PV_REPO="$wt" /verif/check $c --tier ${TIER:-quick} --no-evidence 2>&1); rc=$?
